@@ -105,9 +105,8 @@ Definition ModeS (st : cst) (R j k : Z) : Prop :=
 
 Definition ModeP (st : cst) (R j k : Z) : Prop :=
   c_state st = 1 /\ c_bfull st = true /\ c_ictr st = R + 1 /\ c_imcu st = R + 1 /\ c_rgctr st = j /\
-  c_avail st = availR R /\ j < availR R /\
+  c_avail st = availR R /\ j < availR R /\ (0 < j \/ 0 < k) /\
   (forall i, 0 <= i <= availR R -> VW (c_xb0 st) (c_xb1 st) (c_phys st) (c_which st) i = clampd (R * gM g + i)) /\
-  (j = 0 -> k = 0 -> VW (c_xb0 st) (c_xb1 st) (c_phys st) (c_which st) (-1) = clampd (R * gM g - 1)) /\
   (R < gT g - 1 -> exists W, Shape g W (c_xb0 st) (c_xb1 st) /\ (1 <= R -> W = true)).
 
 Definition ModeQ (st : cst) (R j k : Z) : Prop :=
@@ -270,7 +269,7 @@ Proof.
       * intros [Habt | Hk1]; [|lia]. rewrite rows_c_1. f_equal. apply Hr0, Habt.
       * intros Hlt. exists R, j, 1. simp_c. splits; try lia; auto.
         -- split; [intros; lia|]. intros _. split; [reflexivity|]. exists r0. reflexivity.
-        -- right; left. unfold ModeP. simp_c. rewrite <- Hav_. splits; auto. intros; lia.
+        -- right; left. unfold ModeP. simp_c. rewrite <- Hav_. splits; auto; try lia.
     + (* both rows delivered *)
       change (0 + 2) with 2. cbn [Z.leb Z.compare Pos.compare Pos.compare_cont].
       assert (Hs2 : s + 2 <= gH g).
@@ -387,6 +386,370 @@ Proof.
     + intros i Hi. rewrite Hvw by lia. rewrite clampd_id; [reflexivity|nia].
     + intros _. exists W. split; assumption.
     + exists st', rows, num. splits; auto; try lia.
+Qed.
+
+Lemma rows_c_app s p q : 0 <= p -> 0 <= q -> rows_c g s (p + q) = rows_c g s p ++ rows_c g (s + p) q.
+Proof.
+  intros. unfold rows_c. rewrite Z2Nat.inj_add by lia.
+  assert (Hz : forall a n m, zseq a (n + m) = zseq a n ++ zseq (a + Z.of_nat n) m).
+  { intros a n. revert a. induction n as [|n IH]; intros a m; cbn [Nat.add zseq app].
+    - f_equal. lia.
+    - f_equal. rewrite IH. f_equal. f_equal. lia. }
+  rewrite Hz, map_app. rewrite Z2Nat.id by lia. reflexivity.
+Qed.
+
+Lemma zlen_rows_c s n : 0 <= n -> zlen (rows_c g s n) = n.
+Proof. intros. unfold rows_c, zlen. rewrite map_length, zseq_length'. lia. Qed.
+
+(* ---------- after the postponed row group: CTX_PREPARE_FOR_IMCU of the next iMCU row, if the caller wants more ---------- *)
+Lemma after_Q sc rt cb w x0 x1 ph R e rows avail :
+  1 <= R -> R * gM g * 2 < gH g -> (w = 0 \/ w = 1) ->
+  gH g - R * gM g * 2 <= rt -> (e = true -> rt = gH g - R * gM g * 2) -> zlen ph = gM g + 2 ->
+  Shape g true x0 x1 ->
+  (forall i, 0 <= i < gM g -> VW x0 x1 ph w i = R * gM g + i) ->
+  VW x0 x1 ph w (gM g + 1) = R * gM g - 1 ->
+  1 <= zlen rows <= avail -> (e = true \/ avail - zlen rows <= gH g - R * gM g * 2) ->
+  exists st' rows' num',
+    (if avail <=? zlen rows
+     then (mkC sc true (gM g + 2) (R + 1) 2 rt cb w 0 (gM g + 2) (R + 1) x0 x1 ph, rows)
+     else ctx_prepare g (mkC sc true (gM g + 2) (R + 1) 2 rt cb w 0 (gM g + 2) (R + 1) x0 x1 ph) rows avail)
+    = (st', rows ++ rows') /\
+    0 <= num' <= avail - zlen rows /\ R * gM g * 2 + num' <= gH g /\ rows' = rows_c g (R * gM g * 2) num' /\
+    c_scan st' = sc /\
+    (R * gM g * 2 + num' < gH g -> Core (R * gM g * 2 + num') e st').
+Proof.
+  intros HR HsH Hw Hrt1 Hrt2 Hph HS Hvw Hvm Hrows Hside.
+  destruct (VW_wrap x0 x1 ph w HS Hw) as (Wm & _).
+  assert (Hab : VW x0 x1 ph w (-1) = clampd (R * gM g - 1)).
+  { rewrite Wm. rewrite <- (VW_place true x0 x1 ph w (gM g + 1) HS Hw) by lia. rewrite Hvm.
+    destruct (pos_facts (R * gM g * 2) R 0 0 ltac:(lia) ltac:(lia) ltac:(lia) ltac:(lia) HsH) as (_ & HGd & _).
+    rewrite clampd_id; [reflexivity|nia]. }
+  destruct (avail <=? zlen rows) eqn:Ea.
+  - eexists. exists [], 0. rewrite app_nil_r. splits; try reflexivity; try lia.
+    intros _. replace (R * gM g * 2 + 0) with (R * gM g * 2) by lia.
+    exists R, 0, 0. simp_c. splits; try lia; auto.
+    + split; [auto|intros; lia].
+    + right; right; right. unfold ModeB. simp_c. splits; auto.
+  - destruct (prepare_ok sc (gM g + 2) rt cb w 0 (gM g + 2) (R + 1) (R + 1) x0 x1 ph R e rows avail true true)
+      as (st' & rows' & num & Hrun & Hn1 & Hn2 & Hn3 & Hn4 & Hn5 & Hn6 & Hn7); try lia; auto.
+    exists st', rows', num. splits; auto; try lia.
+Qed.
+
+(* ---------- process_data_context_main, one call ---------- *)
+Definition MainOk (s : Z) (e : bool) (sc avail : Z) (res : cst * list prov) : Prop :=
+  exists num, snd res = rows_c g s num /\ 1 <= num <= avail /\ s + num <= gH g /\ c_scan (fst res) = sc /\
+    (s + num < gH g -> Core (s + num) e (fst res)).
+
+Lemma main_S st R j k s e avail :
+  s = (R * gM g + j) * 2 + k -> 0 <= R -> 0 <= j < gM g -> 0 <= k <= 1 -> s < gH g ->
+  (c_which st = 0 \/ c_which st = 1) -> gH g - s <= c_rtg st -> (e = true -> c_rtg st = gH g - s) ->
+  upOK s k (c_nro st) (c_cbuf st) -> zlen (c_phys st) = gM g + 2 -> ModeS st R j k ->
+  1 <= avail -> (e = true \/ avail <= gH g - s) ->
+  MainOk s e (c_scan st) avail (context_main g st avail).
+Proof.
+  intros Hs HR Hj Hk HsH Hw Hrt1 Hrt2 Hup Hph HMo Ha Hside.
+  destruct st as [sc bf rc im nr rt cb w cs av ic x0 x1 ph]. unfold ModeS in HMo. simp_c_in HMo. simp_c_in Hw.
+  simp_c_in Hrt1. simp_c_in Hrt2. simp_c_in Hup. simp_c_in Hph. simp_c.
+  destruct HMo as (-> & -> & -> & -> & -> & -> & -> & -> & HS).
+  destruct Hup as (Hup0 & _). rewrite (Hup0 eq_refl) in *.
+  destruct (pos_facts s 0 0 0 Hs ltac:(lia) ltac:(lia) ltac:(lia) HsH) as (HRT & HGd & HjNG & HH0 & HT1).
+  unfold context_main. simp_c.
+  destruct (decode_ok sc rc 0 2 rt cb 0 0 av 0 x0 x1 ph false HS ltac:(auto) Hph ltac:(lia))
+    as (ph' & Hdec & Hph' & Hd1 & Hd2).
+  rewrite Hdec. simp_c. cbn [Z.eqb].
+  assert (Hs0 : s = 0 * gM g * 2) by lia.
+  destruct (prepare_ok sc rc rt cb 0 0 av 1 1 x0 x1 ph' 0 e [] avail true false)
+    as (st' & rows & num & Hrun & Hn1 & Hn2 & Hn3 & Hn4 & Hn5 & Hn6 & Hn7); try lia; auto.
+  - intros i Hi. rewrite (VW_place false x0 x1 ph' 0 i HS) by (auto; lia). rewrite Hd1 by lia. reflexivity.
+  - intros _. unfold VW, tokat. rewrite (xb_get_xg g Hrg). cbn [xsel Z.eqb].
+    destruct HS as (_ & _ & _ & HSf & _). rewrite (HSf eq_refl).
+    pose proof (place_range g HM 0 0 ltac:(lia)). assert (E : (place g 0 0 <? 0) = false) by lia. rewrite E.
+    rewrite Hd1 by lia. unfold clampd. pose proof dsh_bounds. lia.
+  - change (zlen (@nil prov)) with 0. lia.
+  - change (zlen (@nil prov)) with 0. lia.
+  - change (zlen (@nil prov)) with 0 in *. cbn [app] in Hrun. change (0 + 1) with 1. rewrite Hrun.
+    exists num. cbn [fst snd]. rewrite Hs0. splits; auto; try lia.
+Qed.
+
+Lemma main_P st R j k s e avail :
+  s = (R * gM g + j) * 2 + k -> 0 <= R -> 0 <= j < gM g -> 0 <= k <= 1 -> s < gH g ->
+  (c_which st = 0 \/ c_which st = 1) -> gH g - s <= c_rtg st -> (e = true -> c_rtg st = gH g - s) ->
+  upOK s k (c_nro st) (c_cbuf st) -> zlen (c_phys st) = gM g + 2 -> ModeP st R j k ->
+  1 <= avail -> (e = true \/ avail <= gH g - s) ->
+  MainOk s e (c_scan st) avail (context_main g st avail).
+Proof.
+  intros Hs HR Hj Hk HsH Hw Hrt1 Hrt2 Hup Hph HMo Ha Hside.
+  destruct st as [sc bf rc im nr rt cb w cs av ic x0 x1 ph]. unfold ModeP in HMo. simp_c_in HMo. simp_c_in Hw.
+  simp_c_in Hrt1. simp_c_in Hrt2. simp_c_in Hup. simp_c_in Hph. simp_c.
+  destruct HMo as (-> & -> & Hic & Him & -> & Hav_ & Hjav & Hjk & Hvw & HSh).
+  unfold context_main. simp_c. cbn [Z.eqb].
+  destruct (process_core sc rt nr cb w av ic im x0 x1 ph R j k s e [] avail true)
+    as (st' & rows & num & Hrun & Hn1 & Hn2 & Hn3 & Hn4 & Hn5 & Hn6 & Hn7); try lia; auto.
+  - intros i Hi. apply Hvw. lia.
+  - change (zlen (@nil prov)) with 0. lia.
+  - change (zlen (@nil prov)) with 0. lia.
+  - change (zlen (@nil prov)) with 0 in *. cbn [app] in Hrun. rewrite Hrun.
+    exists num. cbn [fst snd]. splits; auto; try lia.
+Qed.
+
+Lemma main_B st R j k s e avail :
+  s = (R * gM g + j) * 2 + k -> 0 <= R -> 0 <= j < gM g -> 0 <= k <= 1 -> s < gH g ->
+  (c_which st = 0 \/ c_which st = 1) -> gH g - s <= c_rtg st -> (e = true -> c_rtg st = gH g - s) ->
+  upOK s k (c_nro st) (c_cbuf st) -> zlen (c_phys st) = gM g + 2 -> ModeB st R j k ->
+  1 <= avail -> (e = true \/ avail <= gH g - s) ->
+  MainOk s e (c_scan st) avail (context_main g st avail).
+Proof.
+  intros Hs HR Hj Hk HsH Hw Hrt1 Hrt2 Hup Hph HMo Ha Hside.
+  destruct st as [sc bf rc im nr rt cb w cs av ic x0 x1 ph]. unfold ModeB in HMo. simp_c_in HMo. simp_c_in Hw.
+  simp_c_in Hrt1. simp_c_in Hrt2. simp_c_in Hup. simp_c_in Hph. simp_c.
+  destruct HMo as (-> & -> & HR1 & -> & -> & Hic & Him & HS & Hvw & Hvm).
+  destruct Hup as (Hup0 & _). rewrite (Hup0 eq_refl) in *.
+  unfold context_main. simp_c. cbn [Z.eqb].
+  assert (Hs0 : s = R * gM g * 2) by lia.
+  destruct (VW_wrap x0 x1 ph w HS Hw) as (Wm & _).
+  destruct (pos_facts s R 0 0 Hs HR ltac:(lia) ltac:(lia) HsH) as (HRT & HGd & HjNG & HH0 & HT1).
+  destruct (prepare_ok sc rc rt cb w 0 av ic im x0 x1 ph R e [] avail true true)
+    as (st' & rows & num & Hrun & Hn1 & Hn2 & Hn3 & Hn4 & Hn5 & Hn6 & Hn7); try lia; auto.
+  - intros _. rewrite Wm. rewrite <- (VW_place true x0 x1 ph w (gM g + 1) HS Hw) by lia. rewrite Hvm.
+    rewrite clampd_id; [reflexivity|nia].
+  - change (zlen (@nil prov)) with 0. lia.
+  - change (zlen (@nil prov)) with 0. lia.
+  - change (zlen (@nil prov)) with 0 in *. cbn [app] in Hrun. rewrite Hrun.
+    exists num. cbn [fst snd]. rewrite Hs0. splits; auto; try lia.
+Qed.
+
+Lemma main_Q st R j k s e avail :
+  s = (R * gM g + j) * 2 + k -> 0 <= R -> 0 <= j < gM g -> 0 <= k <= 1 -> s < gH g ->
+  (c_which st = 0 \/ c_which st = 1) -> gH g - s <= c_rtg st -> (e = true -> c_rtg st = gH g - s) ->
+  upOK s k (c_nro st) (c_cbuf st) -> zlen (c_phys st) = gM g + 2 -> ModeQ st R j k ->
+  1 <= avail -> (e = true \/ avail <= gH g - s) ->
+  MainOk s e (c_scan st) avail (context_main g st avail).
+Proof.
+  intros Hs HR Hj Hk HsH Hw Hrt1 Hrt2 Hup Hph HMo Ha Hside.
+  destruct st as [sc bf rc im nr rt cb w cs av ic x0 x1 ph]. unfold ModeQ in HMo. simp_c_in HMo. simp_c_in Hw.
+  simp_c_in Hrt1. simp_c_in Hrt2. simp_c_in Hup. simp_c_in Hph. simp_c.
+  destruct HMo as (-> & HRlt & -> & -> & -> & HS & HQ0 & HQ1).
+  destruct (pos_facts s R (gM g - 1) k Hs HR Hj Hk HsH) as (HRT & HGd & HjNG & HH0 & HT1).
+  pose proof dsh_bounds as Hdb. pose proof dsh_NG as HdN.
+  set (G := R * gM g + (gM g - 1)) in *.
+  assert (HG1 : G + 1 = (R + 1) * gM g) by (unfold G; lia).
+  assert (Hnext : (R + 1) * gM g < gdsh g) by nia.
+  assert (HsB : (R + 1) * gM g * 2 < gH g) by nia.
+  destruct Hup as (Hup0 & Hup1).
+  unfold context_main. simp_c.
+  assert (Hk' : k = 0 \/ k = 1) by lia. destruct Hk' as [-> | ->].
+  - (* start of the postponed row group: the next iMCU row is decoded first *)
+    destruct (HQ0 eq_refl) as (-> & Hic & Him & Hvm1 & Hvm). rewrite (Hup0 eq_refl) in *. clear HQ0 HQ1.
+    destruct (decode_ok sc (gM g + 1) im 2 rt cb w 2 (gM g + 2) ic x0 x1 ph true HS Hw Hph ltac:(lia))
+      as (ph' & Hdec & Hph' & Hd1 & Hd2).
+    rewrite Hdec. simp_c. cbn [Z.eqb Pos.eqb].
+    assert (V1 : VW x0 x1 ph' w (gM g + 1) = G).
+    { rewrite (VW_place true x0 x1 ph' w (gM g + 1) HS Hw) by lia. rewrite Hd2 by lia.
+      rewrite <- (VW_place true x0 x1 ph w (gM g + 1) HS Hw) by lia. rewrite Hvm1. unfold G. lia. }
+    assert (V0 : VW x0 x1 ph' w (gM g) = G - 1).
+    { rewrite (VW_place true x0 x1 ph' w (gM g) HS Hw) by lia. rewrite Hd2 by lia.
+      rewrite <- (VW_place true x0 x1 ph w (gM g) HS Hw) by lia. rewrite Hvm. unfold G. lia. }
+    assert (V2 : VW x0 x1 ph' w (gM g + 2) = G + 1).
+    { destruct (VW_wrap x0 x1 ph' w HS Hw) as (_ & Wp). rewrite Wp. rewrite Hd1 by lia. subst im. lia. }
+    assert (Vn : forall i, 0 <= i < gM g -> VW x0 x1 ph' w i = (R + 1) * gM g + i).
+    { intros i Hi. rewrite (VW_place true x0 x1 ph' w i HS Hw) by lia. rewrite Hd1 by lia. subst im. reflexivity. }
+    unfold sep_upsample_c. simp_c. rewrite Hv. cbn [Z.leb Z.compare Pos.compare Pos.compare_cont].
+    unfold c_xb. simp_c. fold (xsel w x0 x1). rewrite group_prov_eq.
+    fold (VW x0 x1 ph' w (gM g + 1)). fold (VW x0 x1 ph' w (gM g + 1 - 1)). fold (VW x0 x1 ph' w (gM g + 1 + 1)).
+    replace (gM g + 1 - 1) with (gM g) by lia. replace (gM g + 1 + 1) with (gM g + 2) by lia.
+    rewrite V1, V0, V2.
+    unfold zdrop. change (Z.to_nat 0) with 0%nat. cbn [skipn].
+    assert (Hr0 : (G, G - 1) = ideal_c g s).
+    { replace s with (G * 2 + 0) by (unfold G; lia). rewrite ideal_c_eq by (unfold G; nia). cbn [Z.eqb]. f_equal.
+      unfold G. nia. }
+    assert (Hr1 : (G, G + 1) = ideal_c g (s + 1)).
+    { replace (s + 1) with (G * 2 + 1) by (unfold G; lia). rewrite ideal_c_eq by (unfold G; nia). cbn [Z.eqb]. f_equal. lia. }
+    rewrite Hr0, Hr1.
+    set (num := Z.max 0 (Z.min (Z.min (2 - 0) rt) avail)).
+    assert (Hnum : num = 1 \/ num = 2) by (unfold num; lia).
+    destruct Hnum as [Hn | Hn]; rewrite Hn.
+    + (* one row: the second row of the postponed group stays in the conversion buffer *)
+      change (0 + 1) with 1. cbn [Z.leb Z.compare Pos.compare Pos.compare_cont]. simp_c.
+      assert (E : (gM g + 1 <? gM g + 2) = true) by lia. rewrite E.
+      exists 1. cbn [fst snd]. splits; try reflexivity; try lia.
+      intros Hlt. exists R, (gM g - 1), 1. simp_c. splits; try lia; auto.
+      * split; [intros; lia|]. intros _. split; [reflexivity|]. eexists. reflexivity.
+      * right; right; left. unfold ModeQ. simp_c. splits; auto; try lia; try (intros; lia).
+        intros _. splits; auto; try lia. all: try (rewrite V1; unfold G; lia).
+    + (* both rows: the postponed group is done *)
+      change (0 + 2) with 2. cbn [Z.leb Z.compare Pos.compare Pos.compare_cont]. simp_c.
+      assert (E : (gM g + 2 <? gM g + 2) = false) by lia. rewrite E. unfold c_set_main. simp_c.
+      change (ztake 2 [ideal_c g s; ideal_c g (s + 1)]) with [ideal_c g s; ideal_c g (s + 1)].
+      assert (Hs2 : s + 2 <= gH g).
+      { unfold num in Hn. destruct Hside as [He | Hle]; [rewrite (Hrt2 He) in Hn|]; lia. }
+      assert (Hsb : s + 2 = (R + 1) * gM g * 2) by (unfold G in *; lia).
+      subst im ic.
+      destruct (after_Q sc (rt - 2) [ideal_c g s; ideal_c g (s + 1)] w x0 x1 ph' (R + 1) e
+                        [ideal_c g s; ideal_c g (s + 1)] avail)
+        as (st' & rows' & num' & Hrun & Hn1 & Hn3 & Hn5 & Hn6 & Hn7); try lia; auto.
+      * change (zlen [ideal_c g s; ideal_c g (s + 1)]) with 2. unfold num in Hn. lia.
+      * change (zlen [ideal_c g s; ideal_c g (s + 1)]) with 2. destruct Hside; [left; assumption | right; lia].
+      * match goal with |- MainOk _ _ _ _ ?X =>
+          replace X with (st', [ideal_c g s; ideal_c g (s + 1)] ++ rows') by (symmetry; exact Hrun) end.
+        exists (2 + num'). cbn [fst snd]. change (zlen [ideal_c g s; ideal_c g (s + 1)]) with 2 in *.
+        splits; auto; try lia.
+        -- rewrite rows_c_app by lia. rewrite rows_c_2. rewrite Hn5. rewrite Hsb. reflexivity.
+        -- intros Hlt. replace (s + (2 + num')) with ((R + 1) * gM g * 2 + num') by lia. apply Hn7. lia.
+  - (* second row of the postponed row group *)
+    destruct (HQ1 eq_refl) as (-> & Hic & Him & Vn & Hvm1). clear HQ0 HQ1.
+    destruct (Hup1 eq_refl) as (-> & r0 & ->).
+    cbn [Z.eqb Pos.eqb].
+    unfold sep_upsample_c. simp_c. rewrite Hv. cbn [Z.leb Z.compare Pos.compare Pos.compare_cont].
+    set (num := Z.max 0 (Z.min (Z.min (2 - 1) rt) avail)).
+    assert (Hnum : num = 1) by (unfold num; lia). rewrite Hnum.
+    change (1 + 1) with 2. cbn [Z.leb Z.compare Pos.compare Pos.compare_cont]. simp_c.
+    assert (E : (gM g + 1 + 1 <? gM g + 2) = false) by lia. rewrite E. unfold c_set_main. simp_c.
+    replace (gM g + 1 + 1) with (gM g + 2) by lia.
+    assert (Hrows : ztake 1 (zdrop 1 [r0; ideal_c g s]) = [ideal_c g s]) by reflexivity. rewrite Hrows.
+    assert (Hsb : s + 1 = (R + 1) * gM g * 2) by (unfold G in *; lia).
+    subst im ic. replace (R + 2) with (R + 1 + 1) by lia.
+    destruct (after_Q sc (rt - 1) [r0; ideal_c g s] w x0 x1 ph (R + 1) e [ideal_c g s] avail)
+      as (st' & rows' & num' & Hrun & Hn1 & Hn3 & Hn5 & Hn6 & Hn7); try lia; auto.
+    * change (zlen [ideal_c g s]) with 1. lia.
+    * change (zlen [ideal_c g s]) with 1. destruct Hside; [left; assumption | right; lia].
+    * match goal with |- MainOk _ _ _ _ ?X =>
+        replace X with (st', [ideal_c g s] ++ rows') by (symmetry; exact Hrun) end.
+      exists (1 + num'). cbn [fst snd]. change (zlen [ideal_c g s]) with 1 in *.
+      splits; auto; try lia.
+      -- rewrite rows_c_app by lia. rewrite rows_c_1. rewrite Hn5. rewrite Hsb. reflexivity.
+      -- intros Hlt. replace (s + (1 + num')) with ((R + 1) * gM g * 2 + num') by lia. apply Hn7. lia.
+Qed.
+
+(* ---------- jpeg_read_scanlines, one call ---------- *)
+Definition ReadOkC (s : Z) (e : bool) (avail : Z) (res : cst * list prov) : Prop :=
+  exists num, snd res = rows_c g s num /\ 1 <= num <= avail /\ s + num <= gH g /\ c_scan (fst res) = s + num /\
+    (s + num < gH g -> Core (s + num) e (fst res)).
+
+Lemma read_call_c s e st avail :
+  c_scan st = s -> Core s e st -> 1 <= avail -> (e = true \/ avail <= gH g - s) ->
+  ReadOkC s e avail (read_scanlines_c g st avail).
+Proof.
+  intros Hsc (R & j & k & Hs & HR & Hj & Hk & HsH & Hw & Hrt1 & Hrt2 & Hup & Hph & HMo) Ha Hside.
+  unfold read_scanlines_c. rewrite Hsc. assert (E : (gH g <=? s) = false) by lia. rewrite E.
+  assert (HM_ : MainOk s e (c_scan st) avail (context_main g st avail)).
+  { destruct HMo as [HMo | [HMo | [HMo | HMo]]].
+    - eapply main_S; eauto.
+    - eapply main_P; eauto.
+    - eapply main_Q; eauto.
+    - eapply main_B; eauto. }
+  destruct (context_main g st avail) as [st1 rows]. destruct HM_ as (num & Hrows & Hn1 & Hn2 & Hscan & HC).
+  cbn [fst snd] in *. exists num. cbn [fst snd]. subst rows. rewrite zlen_rows_c by lia.
+  destruct st1. unfold c_set_scan. simp_c. simp_c_in Hscan. splits; auto; try lia.
+Qed.
+
+(* ---------- read_and_discard_scanlines ---------- *)
+Lemma rad_c n : forall s e st, c_scan st = s -> Core s e st -> s + Z.of_nat n <= gH g ->
+  c_scan (read_and_discard_c g n st) = s + Z.of_nat n /\
+  (s + Z.of_nat n < gH g -> Core (s + Z.of_nat n) e (read_and_discard_c g n st)).
+Proof.
+  induction n as [|n IH]; intros s e st Hsc HC Hle.
+  - cbn [read_and_discard_c]. replace (s + Z.of_nat 0) with s by lia. split; [assumption|]. intros _. exact HC.
+  - cbn [read_and_discard_c].
+    assert (HsH : s < gH g) by (destruct HC as (R & j & k & _ & _ & _ & _ & H & _); exact H).
+    destruct (read_call_c s e st 1 Hsc HC ltac:(lia) ltac:(right; lia)) as (k & Hrows & Hk & HkH & Hsc1 & HC1).
+    assert (k = 1) by lia. subst k.
+    set (st1 := fst (read_scanlines_c g st 1)) in *.
+    destruct (Z.eq_dec (s + 1) (gH g)) as [Heq | Hne].
+    + assert (n = 0%nat) by lia. subst n. cbn [read_and_discard_c]. split; [lia|]. intros; lia.
+    + destruct (IH (s + 1) e st1 Hsc1 (HC1 ltac:(lia)) ltac:(lia)) as (A & B).
+      split; [lia|]. intros Hlt. replace (s + Z.of_nat (S n)) with (s + 1 + Z.of_nat n) by lia. apply B. lia.
+Qed.
+
+(* ---------- op Read n ---------- *)
+Lemma read_loop_c_zero fuel st n : n <= 0 -> read_loop_c g fuel st n = (st, [], []).
+Proof. intros. destruct fuel; cbn [read_loop_c]; [reflexivity|]. assert (E : (n <=? 0) = true) by lia. rewrite E. reflexivity. Qed.
+
+Lemma read_loop_c_bottom fuel st n : gH g <= c_scan st -> read_loop_c g fuel st n = (st, [], []).
+Proof.
+  intros. destruct fuel; cbn [read_loop_c]; [reflexivity|].
+  assert (E : (gH g <=? c_scan st) = true) by lia. rewrite E, orb_true_r. reflexivity.
+Qed.
+
+Fixpoint zsumc (l : list Z) : Z := match l with [] => 0 | x :: t => x + zsumc t end.
+
+Lemma read_loop_c_ok fuel : forall s st n,
+  c_scan st = s -> Core s true st -> 0 < n -> n <= Z.of_nat fuel ->
+  exists st' cs, read_loop_c g fuel st n = (st', cs, rows_c g s (Z.min n (gH g - s))) /\
+    c_scan st' = Z.min (gH g) (s + n) /\ Forall (fun c => 1 <= c) cs /\ zsumc cs = Z.min n (gH g - s) /\
+    (s + n < gH g -> Core (s + n) true st').
+Proof.
+  induction fuel as [|f IH]; intros s st n Hsc HC Hn Hfu; [lia|].
+  assert (HsH : s < gH g) by (destruct HC as (R & j & k & _ & _ & _ & _ & H & _); exact H).
+  cbn [read_loop_c]. rewrite Hsc.
+  assert (E : ((n <=? 0) || (gH g <=? s)) = false) by lia. rewrite E. clear E.
+  destruct (read_call_c s true st n Hsc HC ltac:(lia) ltac:(left; reflexivity)) as (k & Hrows & Hk & HkH & Hsc1 & HC1).
+  destruct (read_scanlines_c g st n) as [st1 rows] eqn:Er. cbn [fst snd] in *. subst rows.
+  rewrite zlen_rows_c by lia. assert (E : (k =? 0) = false) by lia. rewrite E. clear E.
+  destruct (Z.eq_dec k n) as [Hkn | Hkn].
+  - subst k. rewrite read_loop_c_zero by lia.
+    exists st1, [n]. replace (Z.min n (gH g - s)) with n by lia. rewrite app_nil_r.
+    splits; try lia; try reflexivity.
+    + constructor; [lia|constructor].
+    + cbn. lia.
+    + exact HC1.
+  - destruct (Z.eq_dec (s + k) (gH g)) as [Hb | Hb].
+    + rewrite read_loop_c_bottom by lia.
+      exists st1, [k]. replace (Z.min n (gH g - s)) with k by lia. rewrite app_nil_r.
+      splits; try lia; try reflexivity.
+      * constructor; [lia|constructor].
+      * cbn. lia.
+    + destruct (IH (s + k) st1 (n - k) Hsc1 (HC1 ltac:(lia)) ltac:(lia) ltac:(lia))
+        as (st2 & cs & Hrl & Hsc2 & Hall & Hsum & HC2).
+      rewrite Hrl. exists st2, (k :: cs).
+      splits; try lia.
+      * f_equal. replace (Z.min n (gH g - s)) with (k + Z.min (n - k) (gH g - (s + k))) by lia.
+        rewrite rows_c_app by lia. reflexivity.
+      * constructor; [lia|assumption].
+      * cbn [zsumc]. lia.
+      * intros Hx. replace (s + n) with (s + k + (n - k)) by lia. apply HC2. lia.
+Qed.
+
+(* rows_to_go := output_height - output_scanline *)
+Lemma Core_reset_rtg s e st : c_scan st = s -> Core s e st ->
+  Core s true (mkC (c_scan st) (c_bfull st) (c_rgctr st) (c_imcu st) (c_nro st) (gH g - c_scan st) (c_cbuf st)
+                   (c_which st) (c_state st) (c_avail st) (c_ictr st) (c_xb0 st) (c_xb1 st) (c_phys st)).
+Proof.
+  intros Hsc (R & j & k & Hs & HR & Hj & Hk & HsH & Hw & Hrt1 & Hrt2 & Hup & Hph & HMo).
+  destruct st as [sc bf rc im nr rt cb w cs av ic x0 x1 ph]. simp_c. simp_c_in Hsc. subst sc.
+  exists R, j, k. simp_c. splits; auto; try lia.
+Qed.
+
+(* ---------- the state right after the jump of jpeg_skip_scanlines, and the lines it then reads and discards ---------- *)
+Lemma jump_rad sc rc rt cb w av x0 x1 ph R2 n :
+  0 <= R2 -> sc = R2 * gM g * 2 -> (w = 0 \/ w = 1) -> Shape g true x0 x1 -> zlen ph = gM g + 2 ->
+  gH g - sc <= rt -> (1 <= n)%nat -> sc + Z.of_nat n < gH g ->
+  let st' := read_and_discard_c g n (mkC sc false rc R2 2 rt cb w 0 av R2 x0 x1 ph) in
+  c_scan st' = sc + Z.of_nat n /\ Core (sc + Z.of_nat n) false st'.
+Proof.
+  intros HR Hsc Hw HS Hph Hrt Hn HnH. destruct n as [|n]; [lia|]. cbn [read_and_discard_c].
+  destruct (pos_facts sc R2 0 0 ltac:(lia) HR ltac:(lia) ltac:(lia) ltac:(lia)) as (HRT & HGd & HjNG & HH0 & HT1).
+  (* the first discarded line: decode, prepare, process with one output row *)
+  assert (H1 : exists st1, fst (read_scanlines_c g (mkC sc false rc R2 2 rt cb w 0 av R2 x0 x1 ph) 1) = st1 /\
+                           c_scan st1 = sc + 1 /\ Core (sc + 1) false st1).
+  { unfold read_scanlines_c. simp_c. assert (E : (gH g <=? sc) = false) by lia. rewrite E.
+    unfold context_main. simp_c.
+    destruct (decode_ok sc rc R2 2 rt cb w 0 av R2 x0 x1 ph true HS Hw Hph ltac:(lia))
+      as (ph' & Hdec & Hph' & Hd1 & Hd2).
+    rewrite Hdec. simp_c. cbn [Z.eqb].
+    destruct (prepare_ok sc rc rt cb w 0 av (R2 + 1) (R2 + 1) x0 x1 ph' R2 false [] 1 false true)
+      as (st' & rows & num & Hrun & Hn1 & Hn2 & Hn3 & Hn4 & Hn5 & Hn6 & Hn7); try lia; auto.
+    - intros; discriminate.
+    - intros i Hi. rewrite (VW_place true x0 x1 ph' w i HS Hw) by lia. apply Hd1. lia.
+    - intros; discriminate.
+    - change (zlen (@nil prov)) with 0. lia.
+    - change (zlen (@nil prov)) with 0. right. lia.
+    - change (zlen (@nil prov)) with 0 in *. cbn [app] in Hrun. rewrite Hrun. cbn [fst snd].
+      assert (num = 1) by lia. subst num.
+      eexists. split; [reflexivity|]. destruct st'. unfold c_set_scan. simp_c. simp_c_in Hn6. rewrite Hn4.
+      split; [lia|]. rewrite <- Hsc in Hn7. apply Hn7. lia. }
+  destruct H1 as (st1 & Hst1 & Hsc1 & HC1). rewrite Hst1.
+  destruct (rad_c n (sc + 1) false st1 Hsc1 HC1 ltac:(lia)) as (A & B).
+  cbv zeta. split; [lia|]. replace (sc + Z.of_nat (S n)) with (sc + 1 + Z.of_nat n) by lia. apply B. lia.
 Qed.
 
 End CtxRead.
